@@ -65,6 +65,8 @@ def exec_rpe(job):
     import io
     n, c, seed = job
     u = 1.0 if c["rel"] == "full" else [1.0, 0.25, 1024.0][(n + seed) % 3]
+    if c["rel"] == "ratio" and c["q"]["unit"] != "meters" and (n // 3) % 2:
+        u = 2.0 ** -40          # a reference creeping by picometres: tiny, but not zero, distances are not skipped
     ref = build(c["ref"], "se3" if n % 2 else "pq", u)
     est = build(c["est"], "pq" if (n // 2) % 2 else "se3", u)
     q = c["q"]
